@@ -2949,8 +2949,15 @@ class Parameters:
         """
         try:
             while self_._events:
-                event_dict = OrderedDict([((event.name, event.what), event)
-                                          for event in self_._events])
+                # One event per parameter: from the value held before the
+                # first queued assignment to the final value
+                event_dict = OrderedDict()
+                for event in self_._events:
+                    first = event_dict.get((event.name, event.what))
+                    if first is not None and first.old is not event.old:
+                        event = Event(what=event.what, name=event.name, obj=event.obj, cls=event.cls,
+                                      old=first.old, new=event.new, type=event.type)
+                    event_dict[(event.name, event.what)] = event
                 watchers = self_._state_watchers[:]
                 self_._events = []
                 self_._state_watchers = []
